@@ -81,6 +81,10 @@ theorem gen_removal_columns :
     Generated.C12.tiltDesignHasConstant = false ∧ Generated.C12.powerDesignHasConstant = true ∧
     Generated.C12.removedSurfacesAreFittedColumns = true := by decide
 
+/-- (TRANSLATED) the least-squares fits behind tilt / power removal and pvr pick the valid samples of the data and of the fitted
+    columns in the same logical (row-major) order: no flattening by memory order, so the memory layout of the data cannot matter -/
+theorem gen_fits_flatten_in_logical_order : Generated.C12.fitsFlattenInLogicalOrder = true := by decide
+
 /-! ## coherence for every history -/
 
 section coherence
